@@ -76,7 +76,14 @@ def run(project: Project, rep, tier: str):
             rep.unmodelled("PE-FORM", fi, fi.node, f"result not modelled (normalize={norm}): {r!r}"[:300])
             continue
         e = es[0]
-        ok, w = symeval.equivalent(e, entropy_spec("X", norm), trials=24, input_fn=symeval.bars_input, nrows=4)
+        # the statement constrains the normalised variant for n >= 2 only (ln 1 = 0: what a one-bar barcode yields is a
+        # choice of the code, not of the property)
+        def at_least_two(pt, k_):
+            if pt.sizes.get(("rows", "X"), 2) < 2:
+                pt.sizes[("rows", "X")] = 2 + k_ % 3
+            pt.sizes.setdefault(("rows", "X"), 2 + k_ % 3)
+        ok, w = symeval.equivalent(e, entropy_spec("X", norm), trials=24, input_fn=symeval.bars_input, nrows=4,
+                                   sym_fn=at_least_two if norm else None)
         what = "−Σ p ln p, p = ℓ/Σℓ" + (" divided by ln n" if norm else "")
         if ok is True:
             rep.discharged("PE-FORM", fi, fi.node, f"normalize={norm}: value = {what}", derived=sym.show(e)[:260])
@@ -252,22 +259,40 @@ def run(project: Project, rep, tier: str):
         rep.refuted("PE-INF", fi, fi.node, "keep_inf=True without a substitution value does not raise",
                     construct=f"{PE}: keep_inf without value")
     # ---------------- PE-LIST
-    I, r = _run(project, {P_DGMS: Seq([dgm_input("X"), dgm_input("Y")], "list"), P_KEEP: Sc(sym.FALSE), P_VAL: NoneV(),
-                          P_NORM: Sc(sym.FALSE)})
-    es = _elems(r)
-    if es is None and not (isinstance(r, Arr) and r.ndim == 1) and not isinstance(r, Sc):
-        rep.unmodelled("PE-LIST", fi, fi.node, f"result for a list of two diagrams not modelled: {r!r}"[:160])
-    elif es is None or len(es) != 2:
-        rep.refuted("PE-LIST", fi, fi.node, f"a list of two diagrams does not yield a vector of two values: {r!r}"[:200],
-                    construct=f"{PE}: list handling")
-    else:
-        for k, (e, nm) in enumerate(zip(es, ("X", "Y"))):
-            ok, w = symeval.equivalent(e, entropy_spec(nm, False), trials=12, input_fn=symeval.bars_input, nrows=4)
-            if ok is True:
-                rep.discharged("PE-LIST", fi, fi.node, f"entry {k} of the result is the entropy of diagram {k} alone")
-            else:
-                rep.refuted("PE-LIST", fi, fi.node, f"entry {k} of the result is not the entropy of diagram {k}: "
-                                                    f"{sym.show(e)[:200]}", construct=f"{PE}: list entry {k}")
+    # both settings of `normalize`: every entry is the value of its own diagram alone, whatever the OTHER diagrams of the list
+    # are (a one-bar diagram earlier in the list must not change how a later one is normalised)
+    for norm in (False, True):
+        I, r = _run(project, {P_DGMS: Seq([dgm_input("X"), dgm_input("Y")], "list"), P_KEEP: Sc(sym.FALSE), P_VAL: NoneV(),
+                              P_NORM: Sc(sym.Bool(norm))})
+        es = _elems(r)
+        if es is None and not (isinstance(r, Arr) and r.ndim == 1) and not isinstance(r, Sc):
+            rep.unmodelled("PE-LIST", fi, fi.node, f"result for a list of two diagrams not modelled (normalize={norm}): {r!r}"[:160])
+        elif es is None or len(es) != 2:
+            rep.refuted("PE-LIST", fi, fi.node, f"a list of two diagrams does not yield a vector of two values: {r!r}"[:200],
+                        construct=f"{PE}: list handling")
+        else:
+            for k, (e, nm) in enumerate(zip(es, ("X", "Y"))):
+                other = "Y" if nm == "X" else "X"
+
+                def sizes(pt, k_, nm=nm, other=other):
+                    # the entry's own diagram has at least two bars when normalised (the statement's range); the other one
+                    # has one, two or three
+                    pt.sizes[("rows", nm)] = 2 + k_ % 3 if norm else 1 + k_ % 4
+                    pt.sizes[("rows", other)] = 1 + (k_ // 3) % 3
+                if unmodelled_in(e):
+                    rep.unmodelled("PE-LIST", fi, fi.node, f"entry {k} not fully modelled (normalize={norm})")
+                    continue
+                ok, w = symeval.equivalent(e, entropy_spec(nm, norm), trials=18, input_fn=symeval.bars_input, nrows=4, sym_fn=sizes)
+                if ok is True:
+                    rep.discharged("PE-LIST", fi, fi.node, f"normalize={norm}: entry {k} of the result is the entropy of diagram {k} alone")
+                elif ok is False and not I.clean_before():
+                    rep.unmodelled("PE-LIST", fi, fi.node, f"normalize={norm}: entry {k} differs from the entropy of diagram {k}, but the run "
+                                                           f"was not exact: no verdict")
+                elif ok is False:
+                    rep.refuted("PE-LIST", fi, fi.node, f"normalize={norm}: entry {k} of the result is not the entropy of diagram {k} alone: "
+                                                        f"{sym.show(e)[:160]}; witness {str(w)[:200]}", construct=f"{PE}: list entry {k}")
+                else:
+                    rep.unmodelled("PE-LIST", fi, fi.node, f"normalize={norm}: entry {k} could not be evaluated ({w})")
     # ---------------- PE-PURE: the entropy is a function of the bars given — preparing the bars (dropping / capping infinite
     # ones) must act on copies, otherwise a second call on the same array measures different bars
     from .common import own_analysis
@@ -286,7 +311,7 @@ def run(project: Project, rep, tier: str):
     else:
         rep.discharged("PE-PURE", fi, fi.node, "no write event reaches the diagrams passed in (infinite bars are dropped / "
                                                "capped on copies)")
-    for rname, n in (("PE-PURE", 1), ("PE-FORM", 2), ("PE-INV", 6), ("PE-GUARD", 2), ("PE-INF", 4), ("PE-LIST", 2)):
+    for rname, n in (("PE-PURE", 1), ("PE-FORM", 2), ("PE-INV", 6), ("PE-GUARD", 2), ("PE-INF", 4), ("PE-LIST", 4)):
         rep.floor(rname, n)
     for t in ("numpy.sum", "numpy.log", "numpy.where", "builtins.all", "numpy.array"):
         rep.trust(t)
